@@ -12,6 +12,8 @@ REGISTRY = {
     "C02": ("bpmc.checks.pycodec", "C02"),
     "C03": ("bpmc.checks.ccodec", "C03"),
     "C04": ("bpmc.checks.copt", "C04"),
+    "C05": ("bpmc.checks.c05", "C05"),
+    "C06": ("bpmc.checks.c06", "C06"),
     "C07": ("bpmc.checks.c07", "C07"),
     "C14": ("bpmc.checks.c14", "C14"),
 }
